@@ -3424,6 +3424,7 @@ class Parser:
             expression = self._parse_partition_bound_spec()
         else:
             self.raise_error("Expecting either DEFAULT or FOR VALUES clause.")
+            return None
 
         return self.expression(exp.PartitionedOfProperty(this=this, expression=expression))
 
@@ -4538,6 +4539,7 @@ class Parser:
 
             paren = 1
             start = self._curr
+            end = self._prev
 
             while self._curr and paren > 0:
                 if self._curr.token_type == TokenType.L_PAREN:
